@@ -80,6 +80,10 @@ extern long mpt_buffer_set(MPT_STRUCT(buffer) *buf, const MPT_STRUCT(type_traits
 			return MPT_ERROR(BadType);
 		}
 	}
+	/* elements with finalizer need copy operation, raw copy would duplicate them */
+	if (src_data && len && fini && !init) {
+		return MPT_ERROR(BadOperation);
+	}
 	/* terminate overlapping target data, elements after new data are kept */
 	if (fini) {
 		size_t off, max = (end < used) ? end : used;
